@@ -6,6 +6,9 @@ Model driver for C19. Line protocol (fields separated by one space; strings are 
   twice <tok> <remote1> <remote2>              SaltToken (SaltToken tok remote1) remote2
   load <M> <A> <Q> <K> <T> <B>                 LoadTokensFromHTTPRequest, LoadTokensFromHTTPRequestBody
   legacy <remote> <M> <A> <Q> <K> <T> <B> <D>  Handler.saltAuthToken (through remoteClusterRequest)
+  legacyw <remote> <M> <A> <Q> <K> <T> <B> <D> <H>   remoteClusterRequest -> saltAuthToken -> proxy.Do,
+                                               all outgoing headers; H = - | <name>=<value>,…
+  legacynf …same fields…                       the same with a remote that is not configured
   prov <remote> <toks>                         saltedTokenProvider
   provhttp <remote> <toks>                     the same, observed in the request rpc.Conn sends
   provnc <remote>                              saltedTokenProvider, no credentials in the context
@@ -126,6 +129,30 @@ def showItemsOut : ItemsOut → String
   | .same => "same"
   | .re kvs => "re:" ++ showItems kvs
 
+def parseHeaders (s : String) : Option (List (Str × Str)) :=
+  if s == "-" then some [] else
+  (s.splitOn ",").mapM (fun it =>
+    match it.splitOn "=" with
+    | [k, v] => do
+      let k ← unhexC k
+      -- the credential-bearing headers have their own fields
+      if k == hAuthorization || k == hCookie || k == hContentType then none
+      some (k, (← unhexC v))
+    | _ => none)
+
+def showWire : WireOut → String
+  | .sent w =>
+    let f := w.fwd
+    "fwd A=" ++ (match f.auth with | .same => "same" | .set v => hex v) ++
+    " Q=" ++ showItemsOut f.query ++ " B=" ++ showItemsOut f.body ++
+    " K=" ++ (match f.cookie with | .same => "same" | .stripped => "stripped") ++
+    " H=" ++ showItems w.others ++ " XFF=" ++ hex w.xff ++ " XFP=" ++ hex w.xfp ++ " VIA=" ++ hexList w.via
+  | .notFound => "notfound"
+  | .err .salted => "err salted"
+  | .err .other => "err other"
+  | .panic => "panic"
+  | .unmodelled => "unmodelled"
+
 def showLegacy : LegacyOut → String
   | .fwd f =>
     "fwd A=" ++ (match f.auth with | .same => "same" | .set v => hex v) ++
@@ -179,6 +206,15 @@ def step (line : String) : String :=
     match unhex rm, parseReq m a q k t b, parseDB d with
     | some rm, some r, some db => showLegacy (saltAuthToken hmacSha1 rm db r)
     | _, _, _ => "bad-op"
+  | [op, rm, m, a, q, k, t, b, d, h] =>
+    -- legacyw: the whole path remoteClusterRequest -> saltAuthToken -> proxy.Do with further
+    -- request headers <h>; legacynf: the same with a remote id that is not configured
+    if op == "legacyw" || op == "legacynf" then
+      match unhex rm, parseReq m a q k t b, parseDB d, parseHeaders h with
+      | some rm, some r, some db, some hs =>
+        showWire (remoteClusterRequest hmacSha1 (op == "legacyw") rm db "https".toList r hs)
+      | _, _, _, _ => "bad-op"
+    else "bad-op"
   | [op, rm, ts] =>
     if op == "prov" || op == "provhttp" then
       match unhex rm, parseToks ts with
